@@ -1,4 +1,721 @@
 package main
 
-func cmdCheck(args []string) int   { return 2 }
-func cmdSelftest(args []string) int { return 2 }
+// Property checks: `govc check <Cxx> --tier quick|thorough`.
+
+import (
+	"bufio"
+	"encoding/json"
+	"fmt"
+	"os"
+	"os/exec"
+	"path/filepath"
+	"regexp"
+	"sort"
+	"strings"
+	"time"
+
+	"golang.org/x/tools/go/ssa"
+)
+
+type PropConfig struct {
+	Packages    []string `json:"packages"`
+	Sweep       bool     `json:"sweep"`        // lock-balance sweep over every function of the packages
+	SweepExempt []string `json:"sweep_exempt"` // function-name substrings excluded from the sweep, with reason after " -- "
+	MustHave    []string `json:"must_have"`    // functions that must produce obligations (vacuity guard)
+	NotClaimed  []string `json:"not_claimed"`  // clauses of the property statement not decided by this check
+	Bounded     []string `json:"bounded"`
+	Level       string   `json:"level"`
+}
+
+type KnownFinding struct {
+	Kind       string // finding | fixed
+	Property   string
+	Obligation string
+	Commit     string
+	Text       string
+}
+
+func loadKnownFindings() []KnownFinding {
+	f, err := os.Open("/verif/known_findings.txt")
+	if err != nil {
+		return nil
+	}
+	defer f.Close()
+	var out []KnownFinding
+	sc := bufio.NewScanner(f)
+	for sc.Scan() {
+		l := strings.TrimSpace(sc.Text())
+		if l == "" || strings.HasPrefix(l, "#") {
+			continue
+		}
+		kf := KnownFinding{Text: l}
+		switch {
+		case strings.HasPrefix(l, "finding:"):
+			kf.Kind = "finding"
+		case strings.HasPrefix(l, "fixed:"):
+			kf.Kind = "fixed"
+		default:
+			continue
+		}
+		for _, f := range strings.Fields(l) {
+			if strings.HasPrefix(f, "property=") {
+				kf.Property = strings.TrimPrefix(f, "property=")
+			}
+			if strings.HasPrefix(f, "obligation=") {
+				kf.Obligation = strings.TrimPrefix(f, "obligation=")
+			}
+		}
+		out = append(out, kf)
+	}
+	return out
+}
+
+func loadPropConfig(id string) (*PropConfig, error) {
+	data, err := os.ReadFile("/verif/props/" + id + ".json")
+	if err != nil {
+		return nil, err
+	}
+	var c PropConfig
+	if err := json.Unmarshal(data, &c); err != nil {
+		return nil, fmt.Errorf("props/%s.json: %v", id, err)
+	}
+	return &c, nil
+}
+
+func hasProp(props []string, id string) bool {
+	for _, p := range props {
+		if p == id {
+			return true
+		}
+	}
+	return false
+}
+
+type checkRun struct {
+	id       string
+	tier     string
+	cfg      *PropConfig
+	prog     *Program
+	results  []*FuncResult
+	obls     []*Obligation
+	problems []string
+	wall     float64
+}
+
+// selectAndRun verifies everything that contributes obligations to property id.
+func selectAndRun(p *Program, id string, cfg *PropConfig, outDir string, timeoutS int, second bool) ([]*FuncResult, []*Obligation, []string) {
+	var fullFns, sweepFns []*ssa.Function
+	var problems []string
+	inFull := map[*ssa.Function]bool{}
+	for _, fn := range p.FuncList {
+		fc := p.Contracts.Funcs[FuncName(fn)]
+		if fc == nil || fc.IsStub {
+			continue
+		}
+		serves := hasProp(fc.Props, id)
+		if !serves {
+			for _, cl := range fc.Ensures {
+				if hasProp(cl.Props, id) {
+					serves = true
+				}
+			}
+		}
+		if serves {
+			fullFns = append(fullFns, fn)
+			inFull[fn] = true
+		}
+	}
+	if cfg.Sweep {
+		for _, fn := range p.FuncList {
+			if inFull[fn] {
+				continue
+			}
+			exempt := false
+			for _, e := range cfg.SweepExempt {
+				name, _ := splitReason(e)
+				if strings.Contains(FuncName(fn), name) {
+					exempt = true
+				}
+			}
+			if !exempt {
+				sweepFns = append(sweepFns, fn)
+			}
+		}
+	}
+	var results []*FuncResult
+	results = append(results, runAll(p, fullFns, true, outDir, timeoutS, second)...)
+	results = append(results, runAll(p, sweepFns, false, outDir, timeoutS, second)...)
+	var obls []*Obligation
+	for _, r := range results {
+		for _, pr := range r.Problems {
+			problems = append(problems, r.Func+": "+pr)
+		}
+		if r.Panicked != "" {
+			if r.Full {
+				problems = append(problems, r.Func+": engine failure: "+r.Panicked)
+			}
+		}
+		for _, o := range r.Obls {
+			if hasProp(o.Props, id) {
+				obls = append(obls, o)
+			}
+		}
+	}
+	// contracts that name functions which no longer exist
+	for name, fc := range p.Contracts.Funcs {
+		if fc.IsStub || !hasProp(fc.Props, id) {
+			continue
+		}
+		if _, ok := p.Funcs[name]; !ok {
+			problems = append(problems, "contract-stale: no function "+name+" (contract at "+fc.Pos+")")
+		}
+	}
+	problems = append(problems, p.Contracts.Problems...)
+	sort.Strings(problems)
+	return results, obls, problems
+}
+
+func cmdCheck(args []string) int {
+	if len(args) < 1 {
+		usage()
+	}
+	id := args[0]
+	tier := os.Getenv("VERIF_TIER")
+	if tier == "" {
+		tier = "quick"
+	}
+	for i := 1; i < len(args); i++ {
+		if args[i] == "--tier" && i+1 < len(args) {
+			tier = args[i+1]
+		}
+	}
+	t0 := time.Now()
+	cfg, err := loadPropConfig(id)
+	if err != nil {
+		fmt.Fprintln(os.Stderr, "error:", err)
+		return 2
+	}
+	timeoutS := 20
+	second := false
+	if tier == "thorough" {
+		timeoutS = 120
+		second = true
+	}
+	p, err := LoadProgram(cfg.Packages, nil)
+	if err != nil {
+		// the tree does not load (does not compile): nothing can be said
+		fmt.Fprintln(os.Stderr, "load error:", err)
+		return 2
+	}
+	outDir := filepath.Join("/verif/out/smt", id)
+	os.RemoveAll(outDir)
+	os.MkdirAll(outDir, 0o755)
+	results, obls, problems := selectAndRun(p, id, cfg, outDir, timeoutS, second)
+
+	known := loadKnownFindings()
+	replayDir := filepath.Join("/verif/out/replay", id)
+	os.RemoveAll(replayDir)
+	os.MkdirAll(replayDir, 0o755)
+
+	violations := 0
+	var knownHit []string
+	discharged := 0
+	var solverSecs float64
+	bySolver := map[string]int{}
+	for _, o := range obls {
+		solverSecs += o.Seconds
+		if o.Status == "discharged" {
+			discharged++
+			bySolver[o.Solver]++
+			continue
+		}
+		// known finding?
+		isKnown := false
+		for _, kf := range known {
+			if kf.Kind == "finding" && kf.Property == id && kf.Obligation == o.ID {
+				fmt.Printf("KNOWN-FINDING: property=%s %s\n", id, strings.TrimPrefix(kf.Text, "finding: "))
+				knownHit = append(knownHit, o.ID)
+				isKnown = true
+			}
+		}
+		if isKnown {
+			continue
+		}
+		violations++
+		path, reproduced := writeReplay(p, id, o, replayDir)
+		suffix := ""
+		if !reproduced {
+			suffix = " no-failing-input-found"
+		}
+		fmt.Printf("VIOLATION property=%s replay=%s%s\n", id, path, suffix)
+	}
+	// vacuity guards at the level of the property
+	generated := map[string]bool{}
+	fnObls := map[string]int{}
+	for _, o := range obls {
+		generated[o.ID] = true
+		fnObls[o.Func]++
+	}
+	for _, must := range cfg.MustHave {
+		found := false
+		for f, n := range fnObls {
+			if strings.Contains(f, must) && n > 0 {
+				found = true
+			}
+		}
+		if !found {
+			problems = append(problems, "vacuity: no obligation generated for "+must)
+		}
+	}
+	// inventory: obligations that used to be generated must still be generated
+	inv := loadInventory(id)
+	for _, want := range inv {
+		if !generated[want] {
+			problems = append(problems, "contract-stale: obligation no longer generated: "+want)
+		}
+	}
+	if len(obls) == 0 {
+		problems = append(problems, "vacuity: the check generated no obligations")
+	}
+	for i, pr := range problems {
+		violations++
+		path := filepath.Join(replayDir, fmt.Sprintf("problem-%d.json", i+1))
+		writeJSON(path, map[string]interface{}{"property": id, "obligation": "contract-integrity", "problem": pr,
+			"explanation": "the contracts could not be applied to the current source (renamed or removed function/field, or an engine failure); the property cannot be established"})
+		fmt.Printf("VIOLATION property=%s replay=%s no-failing-input-found\n", id, path)
+	}
+
+	// canaries (thorough tier)
+	var canaryReport map[string]interface{}
+	if tier == "thorough" {
+		canaryReport = runCanaries(id, cfg, timeoutS)
+	}
+
+	wall := time.Since(t0).Seconds()
+	writeEvidence(p, id, tier, cfg, results, obls, discharged, violations, knownHit, problems, solverSecs, bySolver, canaryReport, wall)
+	if os.Getenv("GOVC_UPDATE_INVENTORY") == "1" && violations == 0 {
+		saveInventory(id, obls, timeoutS)
+	}
+	fmt.Printf("property=%s tier=%s functions=%d obligations=%d discharged=%d violations=%d known=%d wall=%.1fs\n",
+		id, tier, len(results), len(obls), discharged, violations, len(knownHit), wall)
+	if violations > 0 {
+		return 1
+	}
+	return 0
+}
+
+func loadInventory(id string) []string {
+	data, err := os.ReadFile("/verif/baseline/obligations/" + id + ".txt")
+	if err != nil {
+		return nil
+	}
+	var out []string
+	for _, l := range strings.Split(string(data), "\n") {
+		l = strings.TrimSpace(l)
+		if l != "" && !strings.HasPrefix(l, "#") {
+			out = append(out, strings.Fields(l)[0])
+		}
+	}
+	return out
+}
+
+func saveInventory(id string, obls []*Obligation, timeoutS int) {
+	os.MkdirAll("/verif/baseline/obligations", 0o755)
+	var lines []string
+	for _, o := range obls {
+		lines = append(lines, o.ID)
+	}
+	sort.Strings(lines)
+	os.WriteFile("/verif/baseline/obligations/"+id+".txt", []byte(strings.Join(lines, "\n")+"\n"), 0o644)
+}
+
+func writeJSON(path string, v interface{}) {
+	data, _ := json.MarshalIndent(v, "", " ")
+	os.WriteFile(path, data, 0o644)
+}
+
+// ---------------------------------------------------------------------------
+// replay
+
+type replayTemplate struct {
+	File    string
+	Pattern *regexp.Regexp
+	Pkg     string
+	Test    string
+}
+
+func loadReplayTemplates() []replayTemplate {
+	files, _ := filepath.Glob("/verif/replay/*_test.go")
+	var out []replayTemplate
+	for _, f := range files {
+		data, err := os.ReadFile(f)
+		if err != nil {
+			continue
+		}
+		var rt replayTemplate
+		rt.File = f
+		for _, l := range strings.Split(string(data), "\n") {
+			if strings.HasPrefix(l, "// replay-obligation:") {
+				re, err := regexp.Compile(strings.TrimSpace(strings.TrimPrefix(l, "// replay-obligation:")))
+				if err == nil {
+					rt.Pattern = re
+				}
+			}
+			if strings.HasPrefix(l, "// replay-package:") {
+				rt.Pkg = strings.TrimSpace(strings.TrimPrefix(l, "// replay-package:"))
+			}
+			if strings.HasPrefix(l, "// replay-test:") {
+				rt.Test = strings.TrimSpace(strings.TrimPrefix(l, "// replay-test:"))
+			}
+		}
+		if rt.Pattern != nil && rt.Pkg != "" && rt.Test != "" {
+			out = append(out, rt)
+		}
+	}
+	return out
+}
+
+// runReplay runs an in-package test on the real code through go test -overlay.
+// It returns (ran, failedOnRealCode, output).
+func runReplay(rt replayTemplate) (bool, bool, string) {
+	pkgDir := filepath.Join(repoDir, rt.Pkg)
+	ov := map[string]string{}
+	ents, _ := os.ReadDir(pkgDir)
+	for _, e := range ents {
+		if strings.HasSuffix(e.Name(), "_test.go") {
+			ov[filepath.Join(pkgDir, e.Name())] = ""
+		}
+	}
+	ov[filepath.Join(pkgDir, "zz_govc_replay_test.go")] = rt.File
+	ovFile := filepath.Join("/verif/out", fmt.Sprintf("overlay-%d.json", os.Getpid()))
+	writeJSON(ovFile, map[string]interface{}{"Replace": ov})
+	defer os.Remove(ovFile)
+	cmd := exec.Command("go", "test", "-overlay", ovFile, "-vet=off", "-count=1", "-timeout", "60s", "-run", "^"+rt.Test+"$", "./"+rt.Pkg)
+	cmd.Dir = repoDir
+	cmd.Env = append(os.Environ(), "GOFLAGS=-mod=mod", "GOPROXY=off", "GOSUMDB=off", "GOTOOLCHAIN=local")
+	out, err := cmd.CombinedOutput()
+	text := string(out)
+	if err == nil {
+		return true, false, text
+	}
+	if strings.Contains(text, "--- FAIL") || strings.Contains(text, "panic:") || strings.Contains(text, "test timed out") {
+		return true, true, text
+	}
+	return false, false, text // build failure etc.
+}
+
+func writeReplay(p *Program, id string, o *Obligation, dir string) (string, bool) {
+	path := filepath.Join(dir, sanitizeFile(o.ID)+".json")
+	rec := map[string]interface{}{
+		"property":   id,
+		"obligation": o.ID,
+		"kind":       o.Kind,
+		"function":   o.Func,
+		"position":   o.Pos,
+		"status":     o.Status,
+		"solver":     o.Solver,
+		"seconds":    o.Seconds,
+		"smt_query":  o.Query,
+	}
+	if o.Model != "" {
+		rec["solver_model"] = truncate(o.Model, 20000)
+	}
+	if o.Output != "" {
+		rec["solver_output"] = truncate(o.Output, 4000)
+	}
+	reproduced := false
+	for _, rt := range loadReplayTemplates() {
+		if !rt.Pattern.MatchString(o.ID) {
+			continue
+		}
+		ran, failed, out := runReplay(rt)
+		rec["replay_test"] = rt.File
+		rec["replay_ran"] = ran
+		rec["replay_output"] = truncate(out, 6000)
+		if ran && failed {
+			reproduced = true
+			rec["replay_result"] = "the failing input was reproduced on the real code (test fails)"
+		} else if ran {
+			rec["replay_result"] = "the replay test passes on the real code: counterexample not reproduced"
+		} else {
+			rec["replay_result"] = "the replay test could not be built/run"
+		}
+		break
+	}
+	if !reproduced {
+		rec["note"] = "no-failing-input-found: the obligation is not discharged on the current tree; it is discharged on the unchanged tree"
+	}
+	writeJSON(path, rec)
+	return path, reproduced
+}
+
+// ---------------------------------------------------------------------------
+// evidence
+
+func writeEvidence(p *Program, id, tier string, cfg *PropConfig, results []*FuncResult, obls []*Obligation, discharged, violations int,
+	knownHit, problems []string, solverSecs float64, bySolver map[string]int, canaries map[string]interface{}, wall float64) {
+	seed := 0
+	fmt.Sscanf(os.Getenv("VERIF_SEED"), "%d", &seed)
+	var under, sweepFns []string
+	inlined := map[string]bool{}
+	stubs := map[string]bool{}
+	notes := map[string]bool{}
+	var assumed []string
+	for _, r := range results {
+		n := 0
+		for _, o := range r.Obls {
+			if hasProp(o.Props, id) {
+				n++
+			}
+		}
+		if n == 0 {
+			continue
+		}
+		if r.Full {
+			under = append(under, r.Func)
+		} else {
+			sweepFns = append(sweepFns, r.Func)
+		}
+		for _, i := range r.Inlined {
+			inlined[i] = true
+		}
+		for _, s := range r.Stubs {
+			stubs[s] = true
+		}
+		for _, nt := range r.Notes {
+			notes[nt] = true
+		}
+		assumed = append(assumed, r.Assumptions...)
+	}
+	var samples []interface{}
+	for i, o := range obls {
+		if i%maxInt(1, len(obls)/12) == 0 && len(samples) < 14 {
+			samples = append(samples, map[string]interface{}{"obligation": o.ID, "kind": o.Kind, "status": o.Status, "solver": o.Solver, "seconds": round3(o.Seconds), "at": o.Pos})
+		}
+	}
+	kinds := map[string]int{}
+	for _, o := range obls {
+		kinds[o.Kind]++
+	}
+	trusted := []string{
+		"go/packages + go/types + go/ssa (x/tools v0.50.0) represent the program faithfully",
+		"the govc VC generator (unverified; guarded by vacuity obligations and must-fail canaries)",
+		"SMT solver answers (z3 5.1.0, cvc5 1.0.3, z3 4.8.12)",
+	}
+	var stubList []string
+	for s := range stubs {
+		stubList = append(stubList, s)
+	}
+	sort.Strings(stubList)
+	for _, s := range stubList {
+		trusted = append(trusted, "assumed contract (stub): "+s)
+	}
+	assumptions := []string{
+		"integers: Go wrap-around arithmetic is modelled exactly (mathematical integers with explicit wrap); no machine arithmetic is treated as mathematical unless a contract says `safety nowrap`, in which case no-wrap is an obligation",
+		"concurrency: shared state is havocked at lock acquisition only where a contract says so; goroutine bodies are verified separately and not interleaved; data races are not modelled",
+		"panicking executions (explicit panic, failed bounds check, nil dereference) end the path: contracts are partial-correctness statements about returning executions unless a safety clause is present",
+		"callees in the target packages without a contract are inlined (small, non-recursive) or replaced by a havoc of their inferred write-set; callees outside the target packages without a stub return arbitrary values and may write through scalar pointers passed to them",
+		"interface values holding typed nil pointers are identified with nil",
+		"strings, protobuf messages, time values and other external struct values are opaque",
+	}
+	assumptions = append(assumptions, assumed...)
+	var noteList []string
+	for n := range notes {
+		noteList = append(noteList, n)
+	}
+	sort.Strings(noteList)
+	if len(noteList) > 40 {
+		noteList = append(noteList[:40], fmt.Sprintf("... %d more", len(noteList)-40))
+	}
+	var inl []string
+	for i := range inlined {
+		inl = append(inl, i)
+	}
+	sort.Strings(inl)
+	sort.Strings(under)
+	level := cfg.Level
+	if level == "" {
+		level = "proof"
+	}
+	cov := map[string]interface{}{
+		"obligations":              len(obls),
+		"discharged":               discharged,
+		"checker_cmd":              fmt.Sprintf("/verif/govc/bin/govc check %s --tier %s", id, tier),
+		"trusted_base":             trusted,
+		"samples":                  samples,
+		"obligation_kinds":         kinds,
+		"functions_under_contract": under,
+		"functions_swept":          len(sweepFns),
+		"solver_seconds_total":     round3(solverSecs),
+		"discharged_by":            bySolver,
+		"inlined_callees":          inl,
+		"engine_notes":             noteList,
+		"not_claimed_clauses":      cfg.NotClaimed,
+		"bounded":                  cfg.Bounded,
+		"known_findings_hit":       knownHit,
+		"contract_problems":        problems,
+		"evaluations":              len(obls),
+		"distinct_nontrivial":      countNontrivial(obls),
+		"rule":                     "one SMT query per generated obligation; non-trivial = not discharged syntactically by the term simplifier (needed a solver)",
+	}
+	if canaries != nil {
+		cov["canaries"] = canaries
+	}
+	ev := map[string]interface{}{
+		"property_id": id,
+		"tier":        tier,
+		"seed":        seed,
+		"level":       level,
+		"coverage":    cov,
+		"assumptions": assumptions,
+		"wall_s":      round3(wall),
+		"violations":  violations,
+	}
+	os.MkdirAll("/verif/evidence", 0o755)
+	writeJSON("/verif/evidence/"+id+".json", ev)
+}
+
+func countNontrivial(obls []*Obligation) int {
+	n := 0
+	for _, o := range obls {
+		if o.Solver != "trivial" {
+			n++
+		}
+	}
+	return n
+}
+
+func maxInt(a, b int) int {
+	if a > b {
+		return a
+	}
+	return b
+}
+func round3(f float64) float64 { return float64(int(f*1000+0.5)) / 1000 }
+
+// ---------------------------------------------------------------------------
+// canaries: deliberately property-breaking patches fed through the loader overlay
+
+func runCanaries(id string, cfg *PropConfig, timeoutS int) map[string]interface{} {
+	files, _ := filepath.Glob("/verif/canaries/" + id + "/*.patch")
+	sort.Strings(files)
+	killed, total, skipped := 0, 0, 0
+	var survivors, details []string
+	for _, pf := range files {
+		overlay, err := patchOverlay(pf)
+		if err != nil {
+			skipped++
+			details = append(details, filepath.Base(pf)+": skipped ("+err.Error()+")")
+			continue
+		}
+		total++
+		p, err := LoadProgram(cfg.Packages, overlay)
+		if err != nil {
+			skipped++
+			total--
+			details = append(details, filepath.Base(pf)+": skipped (does not load: "+truncate(err.Error(), 200)+")")
+			continue
+		}
+		outDir := filepath.Join("/verif/out/smt", id+"-canary")
+		os.RemoveAll(outDir)
+		_, obls, problems := selectAndRun(p, id, cfg, outDir, timeoutS, false)
+		bad := len(problems)
+		var first string
+		for _, o := range obls {
+			if o.Status != "discharged" {
+				bad++
+				if first == "" {
+					first = o.ID
+				}
+			}
+		}
+		// known findings of the unchanged tree do not count as kills
+		if bad > 0 && first != "" {
+			killed++
+			details = append(details, filepath.Base(pf)+": killed by "+first)
+		} else if bad > 0 {
+			killed++
+			details = append(details, filepath.Base(pf)+": killed (contract integrity)")
+		} else {
+			survivors = append(survivors, filepath.Base(pf))
+			details = append(details, filepath.Base(pf)+": SURVIVED")
+		}
+	}
+	return map[string]interface{}{"total": total, "killed": killed, "skipped": skipped, "survivors": survivors, "details": details}
+}
+
+// patchOverlay applies a unified diff to copies of the files it touches and
+// returns the overlay map for the package loader.
+func patchOverlay(patchFile string) (map[string][]byte, error) {
+	data, err := os.ReadFile(patchFile)
+	if err != nil {
+		return nil, err
+	}
+	re := regexp.MustCompile(`(?m)^\+\+\+ b/(\S+)`)
+	ms := re.FindAllStringSubmatch(string(data), -1)
+	if len(ms) == 0 {
+		return nil, fmt.Errorf("no files in patch")
+	}
+	tmp, err := os.MkdirTemp("/verif/out", "canary")
+	if err != nil {
+		return nil, err
+	}
+	defer os.RemoveAll(tmp)
+	for _, m := range ms {
+		src := filepath.Join(repoDir, m[1])
+		dst := filepath.Join(tmp, m[1])
+		os.MkdirAll(filepath.Dir(dst), 0o755)
+		b, err := os.ReadFile(src)
+		if err != nil {
+			return nil, err
+		}
+		os.WriteFile(dst, b, 0o644)
+	}
+	cmd := exec.Command("patch", "-p1", "-s", "-i", patchFile)
+	cmd.Dir = tmp
+	if out, err := cmd.CombinedOutput(); err != nil {
+		return nil, fmt.Errorf("patch does not apply: %s", truncate(string(out), 200))
+	}
+	overlay := map[string][]byte{}
+	for _, m := range ms {
+		b, err := os.ReadFile(filepath.Join(tmp, m[1]))
+		if err != nil {
+			return nil, err
+		}
+		overlay[filepath.Join(repoDir, m[1])] = b
+	}
+	return overlay, nil
+}
+
+func cmdSelftest(args []string) int {
+	dirs, _ := filepath.Glob("/verif/canaries/*")
+	sort.Strings(dirs)
+	fail := 0
+	for _, d := range dirs {
+		id := filepath.Base(d)
+		if len(args) > 0 {
+			want := false
+			for _, a := range args {
+				if a == id {
+					want = true
+				}
+			}
+			if !want {
+				continue
+			}
+		}
+		cfg, err := loadPropConfig(id)
+		if err != nil {
+			continue
+		}
+		rep := runCanaries(id, cfg, 20)
+		fmt.Printf("%s: killed %v / %v (skipped %v)\n", id, rep["killed"], rep["total"], rep["skipped"])
+		for _, dl := range rep["details"].([]string) {
+			fmt.Println("   ", dl)
+		}
+		if s, ok := rep["survivors"].([]string); ok && len(s) > 0 {
+			fail = 1
+		}
+	}
+	return fail
+}
